@@ -123,6 +123,7 @@ def _worker(args):
         cases.append((cid, "valid", text, den, strict, ins, implicit))
         lines += emit_twin_case(cid, text, den, strict, ins)
         cid += 1
+    scen = {}
     for _ in range(n_mut):
         text, strict = texts[rng.randrange(len(texts))]
         if rng.random() < 0.1:
@@ -140,7 +141,19 @@ def _worker(args):
             lines += emit_twin_case(cid, mt, rd, strict, ins)
         else:
             cases.append((cid, "mutant-" + kind, mt, rd, strict, [], None))
-            lines += ["C %d" % cid, "new 0", "desc 0 %d %s" % (strict, hx(mt)), "k 1 2", "parse 0 2 n", "free 0"]
+            # half of the rejected texts are given to an object that is not the one the library touched last:
+            # another object was created after it, and is alive or already freed when the text arrives
+            L = ["new 0"]
+            other = rng.randrange(4)
+            if other >= 2:
+                L.append("new 1")
+                if other == 3:
+                    L.append("free 1")
+            L += ["desc 0 %d %s" % (strict, hx(mt)), "k 1 2", "parse 0 2 n", "free 0"]
+            if other == 2:
+                L.append("free 1")
+            scen[cid] = L
+            lines += ["C %d" % cid] + L
         cid += 1
     exe = build.build(variant)
     tr = run.run_text(exe, "\n".join(lines) + "\n")
@@ -152,7 +165,7 @@ def _worker(args):
             sh.inconclusive += 1
             continue
         rep["scenario"] = "\n".join(emit_twin_case(0, text, den, strict, ins)) + "\n" if isinstance(den, Grammar) else \
-            "C 0\nnew 0\ndesc 0 %d %s\nfree 0\n" % (strict, hx(text))
+            "\n".join(["C 0"] + scen.get(cid, ["new 0", "desc 0 %d %s" % (strict, hx(text)), "free 0"])) + "\n"
         if case.status != "ok":
             sh.viol.append((case.key or case.status + "@case", "kind=%s text=%r" % (kind, text[:300]),
                             dict(rep, report=case.report[:3000])))
